@@ -12,10 +12,13 @@
                     apart, the first at most that far after the first candidate, the last candidate at most that
                     far after the last trigger
 
-   An epoch is a maximal run of blocks between control operations.  Its candidates are the frames from
-   (first frame delivered in the epoch + npre) up to (end of the data delivered so far) - (nsamp - npre): the
-   first npre samples of an epoch cannot be required (after a fresh start there is no history for the
-   pre-trigger part), the last nsamp-npre are not decidable yet.  Nothing in this file runs the model. *)
+   An epoch is a maximal run of blocks between control operations.  Its candidates are the frames from bi_C up to
+   (end of the data delivered so far) - (nsamp - npre) (the last nsamp-npre samples are not decidable yet).
+   bi_C (C01.Spec.new_epoch): after a fresh start the first delivered frame + npre (no history for the pre-trigger
+   part before that); after a control operation the candidates CONTINUE where the decidable ones of the old epoch
+   ended — samples delivered but not yet decidable under the old settings are demanded under the new ones —
+   except that a candidate needs npre samples of history and only one old record length of history is taken for
+   granted (first candidate >= s_H + npre).  Nothing in this file runs the model. *)
 From Dastard Require Import Common.ZX Pipeline.Stream C01.Model C01.Spec.
 
 Section Block.
@@ -59,7 +62,7 @@ Definition auto_dly : Z := Z.max (ts_autodelay ts) nsamp.     (* the auto delay,
 Definition auto_slot (t : Z) : Prop := forall u, In u epoch_trigs -> u < t -> auto_dly <= t - u.
 Definition auto_slotb (t : Z) : bool := forallb (fun u => if u <? t then auto_dly <=? t - u else true) epoch_trigs.
 
-Definition first_cand : Z := bi_S b + npre.
+Definition first_cand : Z := bi_C b.
 Definition dec_end : Z := bi_end b - (nsamp - npre).           (* exclusive *)
 
 Definition sound : Prop :=
@@ -83,7 +86,7 @@ Definition level_complete : Prop :=
 
 (* the candidates that became decidable with this block (those of earlier blocks of the epoch were judged then,
    against a subset of the triggers) *)
-Definition new_lo : Z := Z.max first_cand (seg_first (bi_seg b) - (nsamp - npre)).
+Definition new_lo : Z := bi_lo b.
 Definition edge_completeb : bool :=
   if ts_edge ts
   then forallb (fun k => if edge_crit k then edge_accountedb k else true) (zrange new_lo (dec_end - new_lo))
